@@ -867,7 +867,7 @@ PROPS = {
     "C01": Prop("C01",
                 S(["tokens"], "li,loc,ext") + S(["wf", "near", "raw"], "li,loc,ext,lican,loccan,listr,locstr,conv,idem,liparts,locparts")
                 + S(["subtag"], "lang,script,region,variant") + [("hist", None), ("parts", None), ("match", None)]
-                + S(["triples"], "max,min,dir,limax,limin") + [("glue_li", None), ("glue_misc", None)],
+                + S(["triples"], "max,min,dir,limax,limin") + [("glue_li", None), ("glue_misc", None), ("serde", None)],
                 None, proj_outcome, orc_c01, design_ref="4/C01"),
     "C02": Prop("C02", S(["tokens", "wf", "near", "raw"], "li,lican,listr") + [("glue_li", None)],
                 {"li", "lican", "listr", "liiter", "liiterp"}, proj_c02, orc_c02,
